@@ -4,6 +4,7 @@
 EXTENDS Subcommands, Json, SequencesExt
 CONSTANTS Tree,      \* "T1" | "T2" | "T3"
           EnvFull,   \* TRUE: every subset of *_X variables; FALSE: none or all
+          WithDcf,   \* TRUE: the config may also be delivered as a default config file of the root parser
           AoptFull,  \* TRUE: every subset of levels gives --x on the command line; FALSE: none or all
           Emit
 
@@ -23,7 +24,7 @@ PrefixClosed(S) == \A p \in S : Len(p) <= 1 \/ SubSeq(p, 1, Len(p) - 1) \in S
 Sels == {f \in [Inner -> {None} \cup UNION {ChoiceSet(p) : p \in Inner}] : \A p \in Inner : f[p] = None \/ f[p] \in ChoiceSet(p)}
 
 NoSel == [p \in Inner |-> None]
-Blank == [argv |-> << >>, aopt |-> {}, csel |-> NoSel, csec |-> {}, env |-> FALSE, esel |-> NoSel, eopt |-> {}, strict |-> FALSE]
+Blank == [argv |-> << >>, aopt |-> {}, csel |-> NoSel, csec |-> {}, env |-> FALSE, esel |-> NoSel, eopt |-> {}, strict |-> FALSE, dcf |-> FALSE]
 \* well-formed choices, built constructively in three steps (so that TLC's workers share the enumeration)
 Secs == {S \in SUBSET Paths : PrefixClosed(S \ {<< >>})}
 SelsIn(S) == {f \in Sels : \A p \in Inner : f[p] # None => (p = << >> \/ p \in S)}               \* an explicit key lives inside its section
@@ -36,7 +37,8 @@ Init == in = Blank /\ st = 0
 Step0 == st = 0 /\ st' = 1 /\ \E av \in Paths, strict \in BOOLEAN :
             /\ (strict => av = << >>)                                          \* parse_object / parse_string have no command line
             /\ \E ao \in Aopts(av) : in' = [in EXCEPT !.argv = av, !.aopt = IF strict THEN {} ELSE ao, !.strict = strict]
-Step1 == st = 1 /\ st' = 2 /\ \E S \in Secs : \E cs \in SelsIn(S) : in' = [in EXCEPT !.csec = S, !.csel = cs]
+Step1 == st = 1 /\ st' = 2 /\ \E S \in Secs : \E cs \in SelsIn(S) : \E d \in (IF in.strict \/ ~WithDcf THEN {FALSE} ELSE BOOLEAN) :
+            in' = [in EXCEPT !.csec = S, !.csel = cs, !.dcf = d]
 Step2 == st = 2 /\ st' = 3 /\ \/ in' = in
                               \/ \E es \in EnvSels, eo \in (IF EnvFull THEN SUBSET Paths ELSE {{}, Paths}) : in' = [in EXCEPT !.env = TRUE, !.esel = es, !.eopt = eo]
 Next == Step0 \/ Step1 \/ Step2
@@ -44,7 +46,7 @@ Spec == Init /\ [][Next]_vars
 Done == st = 3
 
 \* C17 at design level
-AlgIsSelect == (Done /\ ~CfgKeyNamesOther(in)) => AlgSelect(T, in) = Select(T, in)
+AlgIsSelect == (Done /\ ~CfgKeyNamesOther(in) /\ ~DcfSubSettings(in)) => AlgSelect(T, in) = Select(T, in)
 \* the shape of every result: one section per level, the chosen one; the last level has none
 OneSectionPerLevel == LET r == Select(T, in) IN (Done /\ ~r.err) =>
                          \A j \in 1..Len(r.levels) : r.levels[j].sections = (IF r.levels[j].chosen = None THEN {} ELSE {r.levels[j].chosen})
@@ -54,8 +56,8 @@ ArgvWins == LET r == Select(T, in) IN (Done /\ ~r.err) => \A j \in 1..Len(in.arg
 TJson == [p \in 1..Cardinality(Paths) |-> LET q == SetToSeq(Paths)[p] IN [path |-> q, req |-> T[q].req, ch |-> T[q].ch]]
 InJson == [argv |-> in.argv, aopt |-> SetToSeq(in.aopt), csel |-> [j \in 1..Cardinality(Inner) |-> <<SetToSeq(Inner)[j], in.csel[SetToSeq(Inner)[j]]>>],
            csec |-> SetToSeq(in.csec), env |-> in.env, esel |-> [j \in 1..Cardinality(Inner) |-> <<SetToSeq(Inner)[j], in.esel[SetToSeq(Inner)[j]]>>],
-           eopt |-> SetToSeq(in.eopt), strict |-> in.strict]
+           eopt |-> SetToSeq(in.eopt), strict |-> in.strict, dcf |-> in.dcf]
 ResJson(r) == [err |-> r.err, levels |-> [j \in 1..Len(r.levels) |-> [x |-> r.levels[j].x, chosen |-> r.levels[j].chosen, sections |-> SetToSeq(r.levels[j].sections)]]]
-EmitCase == (Emit /\ Done) => PrintT(ToJson([tree |-> Tree, input |-> InJson, ref |-> ResJson(Select(T, in)), alg |-> ResJson(AlgSelect(T, in)), dev |-> CfgKeyNamesOther(in)]))
+EmitCase == (Emit /\ Done) => PrintT(ToJson([tree |-> Tree, input |-> InJson, ref |-> ResJson(Select(T, in)), alg |-> ResJson(AlgSelect(T, in)), dev |-> CfgKeyNamesOther(in), dcfdev |-> DcfSubSettings(in)]))
 ASSUME Emit => PrintT(ToJson([treedef |-> Tree, nodes |-> TJson]))
 =============================================================================
